@@ -39,10 +39,14 @@ def check_claim(ctx, P, fn, rec, mode, rule):
     ld_c = [l for l in fn.loads_of(rec, cnt) if l.node.k == "AtomicExpr" and not any(s.node is l.node for s in ops)]
     ld_o = [l for l in fn.loads_of(rec, other) if l.node.k == "AtomicExpr"]
     bad = None
-    if len(ops) != 1 or not ld_c or not ld_o:
+    if len(ops) != 1 or not ld_c:
         o.fail("shape not recognised (CAS %d, loads %d/%d)" % (len(ops), len(ld_c), len(ld_o)), site=fn.loc, construct=rule + " shape")
         return
     c = ops[0]
+    if not ld_o:
+        # the other counter is not read here (e.g. the test was moved into a helper that takes its own snapshot): the table
+        # below then shows whether the claim is still tied to the value the CAS validates
+        bad = "`%s` is never loaded in this function: the %s test is not made on the snapshot the CAS validates" % (other, "fullness" if mode == "push" else "emptiness")
     # load order: the 'other' counter first
     for l in ld_c:
         if fn.dominated_by(l.node, nodeset([x.node for x in ld_o])) is not None:
